@@ -45,6 +45,7 @@ type Contract struct {
 	Inlines  map[string]bool // callee keys to inline in this function
 	Implements []string    // interface contracts this function must satisfy
 	Lets     []LetDef
+	UsesLemmas []string // uses <lemma>...: lemmas (proved as their own obligations) assumed at entry
 	CallAsserts map[string][]Clause // at_call <callee> assert <expr>: checked at every call of callee in this function, in the caller's scope
 	Counts   []CountDef // call-history ghosts: counts <ghost> when <cond over results>
 	File     string
@@ -75,6 +76,7 @@ type SpecFunc struct {
 	File    string
 	Line    int
 	Rec     bool
+	Opaque  bool // translated as an uninterpreted function with a defining axiom (instantiated on demand)
 }
 
 type GhostVar struct {
@@ -129,7 +131,7 @@ type Specs struct {
 var headerRe = regexp.MustCompile(`^func\s*(\(\s*(\w+)?\s*(\*?)\s*(\w+)\s*\))?\s*(\w+)\s*$`)
 
 var clauseKw = map[string]bool{"property": true, "opts": true, "requires": true, "ensures": true, "modifies": true,
-	"loop": true, "invariant": true, "inline": true, "implements": true, "counts": true, "records": true, "at_call": true, "let": true, "params": true, "decreases": true}
+	"loop": true, "invariant": true, "inline": true, "implements": true, "counts": true, "records": true, "at_call": true, "let": true, "uses": true, "params": true, "decreases": true}
 var topKw = map[string]bool{"spec": true, "ghost": true, "lemma": true, "axiom": true, "func": true, "closure": true,
 	"interface": true, "extern": true, "directive": true, "fnvalue": true, "guards": true}
 
@@ -193,11 +195,11 @@ func loadContractFile(path, pkgPath string, resolveQual func(q string) string, s
 		switch kw {
 		case "spec":
 			// spec func name(a T, b T) T = expr
-			m := regexp.MustCompile(`^(rec\s+)?func\s+(\w+)\s*\(([^)]*)\)\s*([^=]*?)\s*=\s*(.*)$`).FindStringSubmatch(rest)
+			m := regexp.MustCompile(`^(rec\s+|opaque\s+)?func\s+(\w+)\s*\(([^)]*)\)\s*([^=]*?)\s*=\s*(.*)$`).FindStringSubmatch(rest)
 			if m == nil {
 				return fail(l, "bad spec func")
 			}
-			sf := &SpecFunc{Name: m[2], PkgPath: pkgPath, File: path, Line: l.line, Src: m[5], Rec: m[1] != ""}
+			sf := &SpecFunc{Name: m[2], PkgPath: pkgPath, File: path, Line: l.line, Src: m[5], Rec: strings.HasPrefix(m[1], "rec"), Opaque: strings.HasPrefix(m[1], "opaque")}
 			if strings.TrimSpace(m[3]) != "" {
 				for _, p := range strings.Split(m[3], ",") {
 					pf := strings.Fields(strings.TrimSpace(p))
@@ -309,7 +311,7 @@ func loadContractFile(path, pkgPath string, resolveQual func(q string) string, s
 				c.Key = pkgPath + "::" + resolveQual(name[:k]) + name[k:]
 			}
 			if old, ok := sp.Contracts[c.Key]; ok {
-				if old.Kind == "extern" || old.Kind == "interface" {
+				if old.Kind == "extern" {
 					// duplicates of assumed contracts are allowed; the first one wins for lookups
 					// but clauses are still parsed (into a throwaway contract)
 				} else {
@@ -407,6 +409,11 @@ func loadContractFile(path, pkgPath string, resolveQual func(q string) string, s
 			for _, n := range splitNames(rest) {
 				cur.Inlines[n] = true
 			}
+		case "uses":
+			if cur == nil {
+				return fail(l, "uses outside a contract")
+			}
+			cur.UsesLemmas = append(cur.UsesLemmas, strings.Fields(rest)...)
 		case "let":
 			if cur == nil {
 				return fail(l, "let outside a contract")
